@@ -332,14 +332,14 @@ def run(ctx):
         for w in wrappers:
             for e1 in eps:
                 for e2 in (eps if thorough else rng.sample(eps, 3)):
-                    # the rule set as a dict or as another kind of Mapping (UserDict is no dict subclass)
-                    kind = rng.choice([dict, dict, collections.UserDict, collections.OrderedDict])
-                    R = kind(copy.deepcopy(R0))
-                    first = ("Validator", e1, {'f': copy.deepcopy(R)}, doc, 'spelling-twin' + ('' if kind is dict else ':' + kind.__name__))
-                    second = (rng.choice(["Validator", "Validator", "SubRule"]), e2, w(copy.deepcopy(R)), doc, first[4])
-                    check([first, second])
-                    check([second, first])
-                    dist["spelling_twin_pairs"] += 2
+                    # the rule set as a dict and as another kind of Mapping (UserDict is no dict subclass); on one class, and across classes
+                    for kind, cls2 in ((dict, "Validator"), (rng.choice([collections.UserDict, collections.OrderedDict]), rng.choice(["Validator", "SubRule"]))):
+                        R = kind(copy.deepcopy(R0))
+                        first = ("Validator", e1, {'f': copy.deepcopy(R)}, doc, 'spelling-twin' + ('' if kind is dict else ':' + kind.__name__))
+                        second = (cls2, e2, w(copy.deepcopy(R)), doc, first[4])
+                        check([first, second])
+                        check([second, first])
+                        dist["spelling_twin_pairs"] += 2
     # systematically: typed members / hash-alike scalars, every ordered pair on the class that knows the rules
     tm = [p for p in pool_schemas if p[1] == 'typed-member']
     for a in tm:
